@@ -67,7 +67,7 @@ pub fn prop() -> Prop {
         id: "C03",
         meta: Meta {
             level: "exploration",
-            rule: "seeded hostile histories (protocol violations, bad acks, server-to-client packets from clients, raw events for unknown/removed ids, stale events of ended links, takeovers, persistent sessions, shared groups, wills) against the real router; every router step runs under catch_unwind with overflow checks on; structural invariants of the router snapshot after every step; a probe (fresh quiescence with all oracles) ends every history. A case counts as distinct and non-trivial when its sequence of operation kinds is new and it reached at least one named corner state.",
+            rule: "seeded hostile histories (protocol violations, bad acks, server-to-client packets from clients, raw events for unknown/removed ids, stale events of ended links, takeovers, persistent sessions, shared groups, wills) against the real router; every router step runs under catch_unwind with overflow checks on; structural invariants of the router snapshot after every step; a probe (fresh quiescence with all oracles) ends every history. A case counts as distinct and non-trivial when its sequence of operation kinds is new and it reached at least one named corner state. Directed scenarios with several case seeds each: a connected client that never collects what it is handed sends 260 requests in batches of their own; an MQTT 5 subscriber holding more concrete filters than its Topic Alias Maximum that unsubscribes and re-subscribes them. A driven router step that sleeps without consuming CPU time for 20 s is a halt (blocked-step supervisor).",
             assumptions: &["router stepped on one thread through verif hooks; link actors use the real LinkTx/LinkRx", "default segment sizes: backlog stays within retention"],
             floors: &[("quiescent-point", 50), ("stale-event-delivered", 5)],
         },
